@@ -450,3 +450,14 @@ func init() {
 		return callBody(fr, fn, []value{args[0], args[1], n})
 	}
 }
+
+func init() {
+	// acra's sqlparser/dependency/hack casts through reflect.SliceHeader; same meaning without the cast
+	const hack = "github.com/cossacklabs/acra/sqlparser/dependency/hack."
+	externals[hack+"String"] = func(fr *frame, args []value) value { return mkSymstr(args[0].([]value)) }
+}
+
+func init() {
+	externals["internal/abi.NoEscape"] = func(fr *frame, args []value) value { return args[0] }
+	externals["internal/abi.Escape[*strings.Builder]"] = func(fr *frame, args []value) value { return args[0] }
+}
